@@ -5,7 +5,7 @@
 # Then stores it under /verif/seeded/<PROP>-<sub>/ with a confirm.log.
 wt=$1; sub=$2; prop=$3
 sd=$wt/seed/$sub
-out=/verif/seeded/$prop-$sub
+out=/verif/seeded/$prop-${4:-$sub}
 mkdir -p $out
 log=$out/confirm.log
 : > $log
@@ -29,4 +29,4 @@ eval "$cmd" >> $log 2>&1
 ( cd $wt/demo_build && timeout 120 ./demo >/dev/null 2>&1 ); rc_clean=$?
 echo "demo without patch: exit $rc_clean" >> $log
 cp $sd/patch.diff $sd/demo.c $sd/meta.json $out/ 2>/dev/null
-if [ "$pass" = "82" ] && [ $rc_mod -ne 0 ] && [ $rc_clean -eq 0 ]; then echo "CONFIRMED $prop-$sub" | tee -a $log; else echo "NOT CONFIRMED $prop-$sub (pass=$pass mod=$rc_mod clean=$rc_clean)" | tee -a $log; fi
+if [ "$pass" = "82" ] && [ $rc_mod -ne 0 ] && [ $rc_clean -eq 0 ]; then echo "CONFIRMED $prop-${4:-$sub}" | tee -a $log; else echo "NOT CONFIRMED $prop-${4:-$sub} (pass=$pass mod=$rc_mod clean=$rc_clean)" | tee -a $log; fi
